@@ -174,6 +174,14 @@ class TextV:
         a, b = idx(lo, z3.IntVal(0)), idx(hi, n)
         return Custom(TextV(z3.SubString(self.z, a, z3.If(b > a, b - a, 0))))
 
+    def getitem(self, eng, p, i, node):
+        k = eng.as_int(i)
+        ks, n = z3.simplify(k), z3.Length(self.z)
+        if z3.is_int_value(ks) and ks.as_long() < 0:
+            k = n + ks
+        eng.oblige(p, f"{eng.cur_func}.str_index_in_range@L{getattr(node, 'lineno', 0)}", "safety", z3.And(0 <= k, k < n), node)
+        return Custom(TextV(z3.SubString(self.z, k, 1)))
+
     def binop(self, eng, p, op, b, node):
         z = text_of(b)
         if isinstance(op, ast.Add) and z is not None:
@@ -194,6 +202,9 @@ class TextV:
             return [(p, Custom(TextV(LOWER(self.z))))]
         if name == "split" and len(args) == 1 and lit[0] is not None and len(lit[0]) == 1:
             return [(p, Custom(SplitV(self.z, lit[0])))]
+        if name == "split" and len(args) == 2 and a[0] is not None and _const(eng, args[1]) == 1:
+            p.axioms += split1_facts(self.z, a[0])
+            return [(p, Custom(Split1V(self.z, a[0])))]
         if name == "rsplit" and len(args) == 2 and lit[0] == "/" and _const(eng, args[1]) == 1:
             return [(p, Custom(RSplit1V(self.z)))]
         if name == "join" and len(args) == 1:
@@ -202,6 +213,8 @@ class TextV:
             return [(p, PyB(z3.PrefixOf(a[0], self.z)))]
         if name == "endswith" and a and a[0] is not None:
             return [(p, PyB(z3.SuffixOf(a[0], self.z)))]
+        if name in ("split", "rsplit", "partition", "rpartition", "splitlines"):
+            raise Unsupported(f"str.{name} with these arguments")
         fn = z3.Function(f"str.{name}({','.join(repr(x) for x in lit)})", S, S)
         return [(p, Custom(TextV(fn(self.z))))]          # an unknown str -> str method: uninterpreted, no facts
 
@@ -307,6 +320,43 @@ class SplitV:
 
     def nonempty(self, eng, p):
         return self.truth(eng, p)
+
+
+BEFORE1 = z3.Function("text_before_first_occurrence", S, S, S)
+AFTER1 = z3.Function("text_after_first_occurrence", S, S, S)
+
+
+def split1_facts(z, sep):
+    """ASSUMED str.split(sep, 1) for a non-empty sep: [z] when sep does not occur, else [text before the FIRST occurrence, text after it]"""
+    b, a = BEFORE1(z, sep), AFTER1(z, sep)
+    return [z3.Implies(z3.Contains(z, sep), z3.And(z == z3.Concat(b, sep, a), z3.IndexOf(z, sep, 0) == z3.Length(b)))]
+
+
+class Split1V:
+    """s.split(sep, 1)"""
+    tracked = False
+
+    def __init__(self, z, sep):
+        self.z, self.sep = z, sep
+
+    def len(self, eng, p):
+        return PyI(z3.If(z3.Contains(self.z, self.sep), 2, 1))
+
+    def getitem(self, eng, p, i, node):
+        k = _const(eng, i)
+        has = z3.Contains(self.z, self.sep)
+        if k in (0, -2):
+            if k == -2:
+                eng.oblige(p, f"{eng.cur_func}.split_index_in_range@L{getattr(node, 'lineno', 0)}", "safety", has, node)
+            return Custom(TextV(z3.If(has, BEFORE1(self.z, self.sep), self.z)))
+        if k == 1:
+            eng.oblige(p, f"{eng.cur_func}.split_index_in_range@L{getattr(node, 'lineno', 0)}", "safety", has, node,
+                       note="s.split(sep, 1)[1]: IndexError unless sep occurs in s")
+            p.pc.append(has)
+            return Custom(TextV(AFTER1(self.z, self.sep)))
+        if k == -1:
+            return Custom(TextV(z3.If(has, AFTER1(self.z, self.sep), self.z)))
+        raise Unsupported("index into s.split(sep, 1)")
 
 
 class EnumV:
@@ -2481,6 +2531,8 @@ class SmallSet:
 # =================================================================================================================================
 #  core.read_row_group: the partition block, for ONE arbitrary row group and ONE arbitrary partition column
 # =================================================================================================================================
+PIECE_PRE = z3.Function("text_before_slash_piece", S, I, S)
+PIECE_POST = z3.Function("text_after_slash_piece", S, I, S)
 CATSHAS = z3.Function("ValueIsInCategoryListOfKey", S, VAL, B)       # x in cats[key]  (cats as built by paths_to_cats)
 FILEPIECE_KEY = "the file name of a part file is not 'name=...' with name a partition column"
 
@@ -2658,6 +2710,11 @@ def run_read_row_group(ctx, funcs, timeout, scheme, cats_meta, passed_meta):
         out = R.path_hyps(j) + [z3.Implies(z3.And(0 <= i, i < R.D), z3.And(*R.level_hyps(scheme, scheme, j, i, True)))]
         out += [z3.Implies(z3.And(0 <= i, i < R.D), z3.And(lvl_full == R.lvl(j, i), z3.Implies(R.KEYN(i) == R.KEYN(R.kW), i == R.kW)))]
         out += split_facts(lvl_full, "=")
+        # ASSUMED str.split, positional detail: piece i sits in the text between what precedes it (empty for i == 0, else ending with
+        # the separator) and what follows it (a directory level is followed by '/' + the rest)
+        pre, post = PIECE_PRE(fp, z3.simplify(i)), PIECE_POST(fp, z3.simplify(i))
+        out += [z3.Implies(z3.And(0 <= i, i < R.D), z3.And(fp == z3.Concat(pre, lvl_full, post), z3.PrefixOf(SL, post),
+                                                           z3.If(i == 0, pre == sv(""), z3.SuffixOf(SL, pre))))]
         # the last piece is the file name
         out += [z3.Implies(i == R.D, PIECE["="](lvl_full, 0) != R.KEYN(R.kW))]
         return out + [i <= R.D]
@@ -3042,44 +3099,63 @@ def metadata_block_obligations(tree_w):
 
 
 def check(ctx, timeout):
-    u, _, _ = parse_module("fastparquet/util.py")
-    w, _, _ = parse_module("fastparquet/writer.py")
-    out = []
-    ctx.function("util.join_path", u["join_path"].sha, u["join_path"].report)
-    out.append(guard("join_path", lambda: run_join_path(ctx, u, timeout)))
-    funcs = dict(w)
-    funcs["path_string"] = u["path_string"]
-    ctx.function("writer.partition_on_columns", w["partition_on_columns"].sha, w["partition_on_columns"].report)
-    ctx.function("util.path_string", u["path_string"].sha, u["path_string"].report)
+    """every function family runs on its own: a construct the engine / a proof script does not model makes THAT family undecided
+    (`<family>.out_of_reach`, UNKNOWN) and leaves the obligations of the other families in place"""
+    out, mods = [], {}
+
+    def mod(rel):
+        if rel not in mods:
+            try:
+                mods[rel] = parse_module("fastparquet/" + rel)
+            except Exception as ex:                # e.g. a syntax error in the current source
+                mods[rel] = ex
+        if isinstance(mods[rel], Exception):
+            raise Unsupported(f"cannot parse fastparquet/{rel}: {mods[rel]}")
+        return mods[rel]
+
+    def fam(name, thunk, register=()):
+        def run():
+            for rel, qn in register:
+                fn = mod(rel)[0].get(qn)
+                if fn is None:
+                    raise Unsupported(f"{rel[:-3]}.{qn} no longer exists")
+                ctx.function(f"{rel[:-3]}.{qn}", fn.sha, fn.report)
+            return thunk()
+        out.append(guard(name, run))
+
+    def U():
+        return mod("util.py")[0]
+
+    def wfuncs():
+        d = dict(mod("writer.py")[0])
+        d["path_string"] = U()["path_string"]
+        return d
+
+    def afuncs():
+        d = dict(mod("api.py")[0])
+        d["_strip_path_tail"] = U()["_strip_path_tail"]
+        return d
+    fam("join_path", lambda: run_join_path(ctx, U(), timeout), [("util.py", "join_path")])
     for hive in (True, False):
-        out.append(guard("partition_on_columns" + ("[hive]" if hive else "[drill]"), lambda: run_partition_on_columns(ctx, funcs, timeout, hive)))
-    for n in ("val_from_meta", "val_to_num", "_val_to_num"):
-        ctx.function("util." + n, u[n].sha, u[n].report)
-    out.append(guard("val_to_num", lambda: run_value_kinds(ctx, u, timeout)))
-    a, _, _ = parse_module("fastparquet/api.py")
-    af = dict(a)
-    af["_strip_path_tail"] = u["_strip_path_tail"]
-    for n in ("paths_to_cats", "_path_to_cats"):
-        ctx.function("api." + n, a[n].sha, a[n].report)
-    ctx.function("util._strip_path_tail", u["_strip_path_tail"].sha, u["_strip_path_tail"].report)
+        fam("partition_on_columns" + ("[hive]" if hive else "[drill]"), lambda hive=hive: run_partition_on_columns(ctx, wfuncs(), timeout, hive),
+            [("writer.py", "partition_on_columns"), ("util.py", "path_string")])
+    fam("val_to_num", lambda: run_value_kinds(ctx, U(), timeout), [("util.py", n) for n in ("val_from_meta", "val_to_num", "_val_to_num")])
     for written_as, with_meta, clean_, homog in (("hive", True, True, True), ("hive", False, True, True), ("hive", True, False, True),
                                                  ("drill", False, True, True), ("drill", False, True, False), ("drill", False, False, True)):
-        nm = f"paths_to_cats[{written_as},{with_meta},{clean_},{homog}]"
-        out.append(guard(nm, lambda: run_paths_to_cats(ctx, af, timeout, written_as, with_meta, clean_, homog)))
-    out.append(guard("strip_path_tail", lambda: run_strip_path_tail(ctx, u, timeout)))
-    ctx.function("api.ParquetFile.partition_meta", a["ParquetFile.partition_meta"].sha, a["ParquetFile.partition_meta"].report)
-    out.append(guard("ParquetFile.partition_meta", lambda: run_partition_meta(ctx, a, timeout)))
-    ctx.function("writer.make_metadata", w["make_metadata"].sha, w["make_metadata"].report)
-    out.append(guard("make_metadata", lambda: metadata_block_obligations(parse_module("fastparquet/writer.py")[1])))
-    ctx.function("util.get_file_scheme", u["get_file_scheme"].sha, u["get_file_scheme"].report)
-    out.append(guard("get_file_scheme", lambda: run_get_file_scheme(ctx, u, timeout)))
-    c, _, _ = parse_module("fastparquet/core.py")
-    ctx.function("core.read_row_group", c["read_row_group"].sha, c["read_row_group"].report)
+        tag = f"[{written_as} dataset, {'metadata' if with_meta else 'no metadata'}" + ("" if clean_ else ", any value text") + \
+            ("" if with_meta or homog or not clean_ else ", levels may mix re-typable and plain text") + "]"
+        fam("paths_to_cats" + tag, lambda a=(written_as, with_meta, clean_, homog): run_paths_to_cats(ctx, afuncs(), timeout, *a),
+            [("api.py", "paths_to_cats"), ("api.py", "_path_to_cats"), ("util.py", "_strip_path_tail")])
+    fam("strip_path_tail", lambda: run_strip_path_tail(ctx, U(), timeout))
+    fam("ParquetFile.partition_meta", lambda: run_partition_meta(ctx, mod("api.py")[0], timeout), [("api.py", "ParquetFile.partition_meta")])
+    fam("make_metadata", lambda: metadata_block_obligations(mod("writer.py")[1]), [("writer.py", "make_metadata")])
+    fam("get_file_scheme", lambda: run_get_file_scheme(ctx, U(), timeout), [("util.py", "get_file_scheme")])
     for scheme, cats_meta, passed in (("hive", True, True), ("hive", True, False), ("hive", False, False), ("drill", False, False)):
-        out.append(guard(f"read_row_group[{scheme},{cats_meta},{passed}]", lambda: run_read_row_group(ctx, c, timeout, scheme, cats_meta, passed)))
-    for n in ("ParquetFile._read_partitions", "ParquetFile.__init__", "ParquetFile.to_pandas", "ParquetFile.read_row_group_file"):
-        ctx.function("api." + n, a[n].sha, a[n].report)
-    out.append(guard("ParquetFile", lambda: call_site_obligations(ctx, parse_module("fastparquet/api.py")[1])))
+        tag = f"[{scheme}" + (", partition_meta not passed" if cats_meta and not passed else "" if cats_meta else ", no metadata") + "]"
+        fam("read_row_group" + tag, lambda a=(scheme, cats_meta, passed): run_read_row_group(ctx, mod("core.py")[0], timeout, *a),
+            [("core.py", "read_row_group")])
+    fam("ParquetFile.call_sites", lambda: call_site_obligations(ctx, mod("api.py")[1]),
+        [("api.py", "ParquetFile." + n) for n in ("_read_partitions", "__init__", "to_pandas", "read_row_group_file")])
     r = Results()
     r.add("analyse_paths.out_of_reach", UNKNOWN, None, 0.0, "engine",
           "util.analyse_paths is NOT under contract: root=False needs the nested zip/enumerate/break loop as one inductive invariant over lists of "
@@ -3090,12 +3166,19 @@ def check(ctx, timeout):
 
 
 def guard(name, fn):
-    """a function the engine cannot lower is out of reach: one UNKNOWN obligation, never a violation"""
+    """a function the engine cannot lower - or on which the proof script itself fails (a shape it does not model) - is out of reach for
+    this run: ONE UNKNOWN obligation for that family, never a violation, never silence for the other families"""
     try:
         return fn()
     except Unsupported as ex:
         r = Results()
         r.add(name + ".out_of_reach", UNKNOWN, None, 0.0, "engine", str(ex))
+        return r
+    except Exception as ex:
+        import traceback
+        r = Results()
+        where = [l.strip() for l in traceback.format_exc().splitlines() if l.strip().startswith("File")][-1:]
+        r.add(name + ".out_of_reach", UNKNOWN, None, 0.0, "engine", f"{type(ex).__name__}: {ex} | {' '.join(where)}")
         return r
 
 
